@@ -142,7 +142,8 @@ def check_script(ctx, sc):
             kinds = [k for x, y, k in args]
             d15 = any(k in ('paren', 'subq') for k in kinds) or (
                 len(kinds) == 1 and kinds[0] in ('case', 'operation',
-                                                 'operation-x', 'neg'))
+                                                 'operation-x', 'neg',
+                                                 'null', 'bool'))
             d22a = any(k in ('typed', 'dollar', 'operation-x', 'neg')
                        for k in kinds)
             rec.monitor('function_parameters')
@@ -206,7 +207,7 @@ def check_script(ctx, sc):
         # ---- comparisons --------------------------------------------------
         for left, op, right in st.comps:
             ok_kinds = ('col', 'num', 'str', 'call', 'paren', 'subq',
-                        'operation', 'typed', 'cast')
+                        'operation', 'typed', 'cast', 'null')
             if left[2] not in ok_kinds or right[2] not in ok_kinds:
                 rec.count('comparisons_outside_declared_operand_classes')
                 continue
